@@ -104,12 +104,12 @@ func init() {
 	}
 	commonJust["attestation/yubiattest.ModHex|index alloc<[8]byte>[:const(8)][phi{(↺+const(2))|phi{(const(0)+const(2))|const(0)}}]"] = "dst index runs from the arm's offset in steps of 2 over len(serial) bytes; C16.R4 decides 2*len(serial)+offset == 8 in each admitted arm"
 	commonJust["attestation/yubiattest.ModHex|index alloc<[8]byte>[:const(8)][(phi{(↺+const(2))|phi{(const(0)+const(2))|const(0)}}+const(1))]"] = "dst index+1, same argument: C16.R4 decides 2*len(serial)+offset == 8 in each admitted arm"
-	// crypto/ecdh PublicKey.Bytes() is the uncompressed point: 65 / 97 / 133 bytes for P-256 / P-384 / P-521, and each
-	// arm is selected by p.Curve() being that curve.
-	pre := "attestation/yubiattest.parsePublicKey|slice call<(*crypto/ecdh.PublicKey).Bytes>(call<(crypto/ecdh.Curve).NewPublicKey>(call<attestation/yubiattest.ecdhCurveFromOID>(alloc<encoding/asn1.ObjectIdentifier>)#0,call<(encoding/asn1.BitString).RightAlign>(….PublicKey))#0)"
-	for _, r := range []string{"[const(1):const(33)]", "[const(33):]", "[const(1):const(49)]", "[const(49):]", "[const(1):const(67)]", "[const(67):]"} {
-		commonJust[pre+r] = "crypto/ecdh Bytes() of a P-256/P-384/P-521 key is 65/97/133 bytes and the arm is selected by the key's own curve"
-	}
+	// crypto/ecdh PublicKey.Bytes() is the uncompressed point: 65 / 97 / 133 bytes for P-256 / P-384 / P-521; a slice
+	// of it in an arm selected by the key's own curve is decided against that length.
+	justShapes = append(justShapes, justShape{
+		why:   "crypto/ecdh Bytes() of a P-256/P-384/P-521 key is 65/97/133 bytes, the arm is selected by the key's own curve and the constant bounds lie within that length",
+		holds: ecdhBytesGuard,
+	})
 }
 
 var c12Just = commonJust
